@@ -83,3 +83,11 @@ prop("C15", ["contracts.c04_codec", "contracts.c05_pdovar", "contracts.c10_netwo
               "Condition.wait is a havoc point (A4); A5 callbacks do not re-enter"],
      not_decided=["reception from a second thread while another thread waits (real interleavings)",
                   "which of 0x1600+n / 0x1A00+n the PDO container files rx/tx maps under (fixed by the pinned test-suite, not by the statement)"])
+
+prop("C09", ["contracts.c09_pdocfg", "contracts.c15_pdo"], ["PdoSave", "PdoSaveRead", "PdoReadFromOd", "PdoSubscribe"],
+     assumed=["strict CiA 301 device behind the PDO's communication record and mapping array (env/pdodev.py): stores accepted "
+              "writes, refuses out-of-order ones; every record[sub].raw access is one SDO transfer",
+              "mappings of 0, 1, 2 and 8 entries (enumerated count; every entry's index / sub-index / length universally quantified)",
+              "the configuration only sets optional parameters whose sub-entries exist in the dictionary"],
+     not_decided=["PDO numbers 1..512 / PdoMaps construction; configuration taken from the dictionary (from_od=True); "
+                  "devices with a fixed-length mapping array (the _fill_map work-around)"])
